@@ -123,7 +123,8 @@ def show(c):
     if t.get("arr"):
         ar = t["arr"]
         d["array"] = dict(container=ar["kind"], element_multipliers=ar["mult"], step=ar["name"], element=ar["i"],
-                          note="every leaf Scalar(v, ..) stands for Array(container(v * m for m in multipliers), ..); "
+                          element_types=dict(zip(("a", "b"), arr_dts(ar))),
+                          note="every leaf Scalar(v, ..) stands for Array(container(leaf_elem(v, m, element type) for m in multipliers), ..); "
                                "steps run in order on the same operand objects")
     return d
 
@@ -186,6 +187,10 @@ def _agree(c, io, mo, ctx):
         return "result quantities differ: impl=%s model=%s" % (show_q(io["ok"]), show_q(mo["ok"]))
     r = float.fromhex(io["v"])
     y, m = qparse(mo["v"]), qparse(mo["M"])
+    ar = c["_t"].get("arr")
+    if ar and "float32" in arr_dts(ar):
+        # a float32 array takes part: the same bound with eps = 2**-24 (M is scaled instead of eps)
+        m = max(m, abs(y)) * 2 ** 29
     if c["op"] == "floordiv":
         if close(r, y, abs(y)):
             return None
@@ -229,31 +234,54 @@ STEPS = {
 }
 
 
-def elem_tree(t, m):
-    """the Scalar tree of one array element: every leaf value multiplied by m"""
+# element types of ndarray leaves (left operand, right operand): integer and float32 arrays on either or both sides
+ARR_DTYPES = [("int64", "float64"), ("float64", "int64"), ("int64", "int64"), ("int32", "float64"),
+              ("float64", "int32"), ("int32", "int32"), ("int64", "int32"), ("float32", "float64"),
+              ("float64", "float32"), ("float32", "float32"), ("int32", "float32"), ("float32", "int64")]
+INT_LEAF_MAX = 50  # integer leaves are small, so that products of a few of them stay exact in int32
+
+
+def leaf_elem(v, m, dt="float64"):
+    """the value of one element of a leaf: leaf value * multiplier, as a number of the leaf's element type
+    (integers: rounded, never 0, at most INT_LEAF_MAX; float32: the nearest float32)"""
+    x = float(v * m)
+    if dt == "float64":
+        return x
+    if dt == "float32":
+        import numpy
+
+        return float(numpy.float32(x))
+    n = int(round(max(-INT_LEAF_MAX, min(INT_LEAF_MAX, x))))
+    if n == 0:
+        n = -1 if x < 0 else 1
+    return float(n)
+
+
+def elem_tree(t, m, dt="float64"):
+    """the Scalar tree of one array element: every leaf value multiplied by m (in the leaf's element type)"""
     k = t[0]
     if k in ("L", "C", "E", "R"):
-        return [k, float(fval(t[1]) * m).hex()] + list(t[2:])
+        return [k, float(leaf_elem(fval(t[1]), m, dt)).hex()] + list(t[2:])
     if k == "^":
-        return ["^", elem_tree(t[1], m), t[2]]
-    return [k, elem_tree(t[1], m), elem_tree(t[2], m)]
+        return ["^", elem_tree(t[1], m, dt), t[2]]
+    return [k, elem_tree(t[1], m, dt), elem_tree(t[2], m, dt)]
 
 
-def _container(vals, kind):
+def _container(vals, kind, dt="float64"):
     if kind == "ndarray":
         import numpy
 
-        return numpy.array(vals, dtype=float)
+        return numpy.array(vals, dtype=getattr(numpy, dt))
     return list(vals) if kind == "list" else tuple(vals)
 
 
-def build_array(t, mult, kind):
+def build_array(t, mult, kind, dt="float64"):
     """Evaluate a tree with Arrays (raises whatever the real code raises)."""
     from barril.units import Array, ObtainQuantity
 
     k = t[0]
     if k in ("L", "C", "E", "R"):
-        vals = _container([float(fval(t[1]) * m) for m in mult], kind)
+        vals = _container([leaf_elem(fval(t[1]), m, dt) for m in mult], kind, dt)
         if k == "L":
             return Array(vals, t[2], t[3])
         if k == "C":
@@ -262,12 +290,12 @@ def build_array(t, mult, kind):
             return Array.CreateEmptyArray(vals)
         return Array.CreateWithQuantity(ObtainQuantity(OrderedDict((c, [u, e]) for c, u, e in t[2])), vals)
     if k == "^":  # Array has no __pow__: the loop of Scalar.__pow__
-        a = build_array(t[1], mult, kind)
+        a = build_array(t[1], mult, kind, dt)
         r = a
         for _ in range(t[2] - 1):
             r = r * a
         return r
-    return apply_op(k, build_array(t[1], mult, kind), build_array(t[2], mult, kind))
+    return apply_op(k, build_array(t[1], mult, kind, dt), build_array(t[2], mult, kind, dt))
 
 
 def elems(obj):
@@ -278,14 +306,14 @@ def _snap(obj):
     return dict(q=canon_quantity(obj.GetQuantity()), vals=elems(obj))
 
 
-def run_group(ta, tb, mult, kind, fam):
+def run_group(ta, tb, mult, kind, fam, dts=("float64", "float64")):
     """Build the two Array operands ONCE and run the steps of the family in order on the same objects.
     None when an operand cannot be built."""
     import numpy
 
     with numpy.errstate(all="ignore"):
         try:
-            objs = dict(a=build_array(ta, mult, kind), b=build_array(tb, mult, kind))
+            objs = dict(a=build_array(ta, mult, kind, dts[0]), b=build_array(tb, mult, kind, dts[1]))
         except Exception:
             return None
         snap = {k: _snap(o) for k, o in objs.items()}  # the operands as they were built
@@ -313,9 +341,13 @@ def run_group(ta, tb, mult, kind, fam):
 
 def array_cases(ctx, fam, ta, tb, rng):
     """the correspondence cases (one per step and element) of one operand pair evaluated with Arrays"""
-    kind = rng.choice(ARR_KINDS)
+    shallow = depth(ta) <= 1 and depth(tb) <= 1
+    kind = rng.choice(ARR_KINDS + (("ndarray", "ndarray") if shallow else ()))
     mult = [rng.choice(ARR_MULT) for _ in range(rng.choice((2, 3)))]
-    g = run_group(ta, tb, mult, kind, fam)
+    dts = ["float64", "float64"]
+    if kind == "ndarray" and shallow and rng.random() < 0.7:
+        dts = list(rng.choice(ARR_DTYPES))  # operands of at most two leaves: integer products stay exact
+    g = run_group(ta, tb, mult, kind, fam, dts)
     if g is None:
         return []
     cache = ctx.__dict__.setdefault("_arr", {})
@@ -330,7 +362,7 @@ def array_cases(ctx, fam, ta, tb, rng):
             if not (math.isfinite(L["vals"][i]) and math.isfinite(R["vals"][i])):
                 continue
             c = dict(op=OPNAME[op], _t=dict(k=op, a=ta, b=tb, n=None,
-                                            arr=dict(gid=gid, kind=kind, mult=mult, fam=fam, step=j, name=name, i=i)))
+                                            arr=dict(gid=gid, kind=kind, mult=mult, dts=dts, fam=fam, step=j, name=name, i=i)))
             c.update(e1=L["q"]["e"], c1=L["q"]["cap"], v1=qstr(exact(L["vals"][i])),
                      e2=R["q"]["e"], c2=R["q"]["cap"], v2=qstr(exact(R["vals"][i])))
             out.append(c)
@@ -342,7 +374,7 @@ def impl_array(c, ctx):
     ar = t["arr"]
     g = ctx.__dict__.setdefault("_arr", {}).get(ar["gid"])
     if g is None:
-        g = run_group(t["a"], t["b"], ar["mult"], ar["kind"], ar["fam"])
+        g = run_group(t["a"], t["b"], ar["mult"], ar["kind"], ar["fam"], ar.get("dts", ("float64", "float64")))
         if g is None:
             return dict(err="other", detail="operands no longer build")
     res = g["steps"][ar["step"]]
@@ -356,9 +388,18 @@ def impl_array(c, ctx):
     return dict(ok=res["q"], v=float(v).hex())
 
 
-def arr_sems(t, mult, db):
+def arr_sems(t, mult, db, dt="float64"):
     """independent semantics of every element of a tree evaluated with Arrays"""
-    return [sem(elem_tree(t, m), db) for m in mult]
+    return [sem(elem_tree(t, m, dt), db) for m in mult]
+
+
+def arr_dts(ar):
+    return tuple(ar.get("dts") or ("float64", "float64"))
+
+
+def arr_tol(ar):
+    """relative tolerance of the oracles: float32 arithmetic where a float32 array takes part"""
+    return 1e-5 if "float32" in arr_dts(ar) else 1e-9
 
 
 def mags_of(arr, db):
